@@ -74,7 +74,9 @@ Section R.
                   ~ In (pg ev) (Hd s)) ->
     PB (fst (flush fuel s bs i)) /\ tab (fst (flush fuel s bs i)) = tab s.
   Proof.
-    induction fuel as [|f IH]; intros s bs i Hi P Hin Nd Fr; simpl; auto.
+    induction fuel as [|f IH]; intros s bs i Hi P Hin Nd Fr; simpl.
+    { destruct (Nat.ltb (bs_processed bs) (length (bs_results bs)) && nth i (bs_results bs) false); simpl; auto.
+      split; auto. apply (PB_same s); auto. }
     destruct (Nat.ltb (bs_processed bs) (length (bs_results bs)) && nth i (bs_results bs) false); auto.
     destruct (nth_error (b_events (bs_batch bs)) i) as [ev|] eqn:En; auto.
     destruct (PB_process fc fp lim_n lim_s s ev P) as [P1 [T1 H1]].
